@@ -146,18 +146,23 @@ func IsRetryableError(err error) bool {
 
 // httpStatusOf extracts NNN from the first "status code NNN" / "status code: NNN" in errStr.
 func httpStatusOf(errStr string) (int, bool) {
+	// The leftmost marker counts: the library's own text comes first, a response body quoted after it
+	// may contain the other spelling.
+	at, length := -1, 0
 	for _, marker := range []string{"status code: ", "status code "} {
-		i := strings.Index(errStr, marker)
-		if i < 0 {
-			continue
+		if i := strings.Index(errStr, marker); i >= 0 && (at < 0 || i < at) {
+			at, length = i, len(marker)
 		}
-		rest := errStr[i+len(marker):]
-		if len(rest) < 3 || (len(rest) > 3 && rest[3] >= '0' && rest[3] <= '9') {
-			continue
-		}
-		if code, err := strconv.Atoi(rest[:3]); err == nil && code >= 100 {
-			return code, true
-		}
+	}
+	if at < 0 {
+		return 0, false
+	}
+	rest := errStr[at+length:]
+	if len(rest) < 3 || (len(rest) > 3 && rest[3] >= '0' && rest[3] <= '9') {
+		return 0, false
+	}
+	if code, err := strconv.Atoi(rest[:3]); err == nil && code >= 100 {
+		return code, true
 	}
 	return 0, false
 }
